@@ -2711,7 +2711,7 @@ def container_iter_lemmas(F, rep, rule="L-base-iter", conts=("slice", "string"),
         if cname not in conts:
             continue
         into = [r for r in roots if r.get("trait") == "IntoIterator" and r.get("self") == "&" + cty]
-        nexts = [r for r in roots if r.get("trait") == "Iterator" and r.get("of") == cty and r.get("method") == "next"]
+        nexts = [r for r in roots if r.get("trait") == "Iterator" and r.get("of") == cty and r.get("method") == "next" and not r.get("via")]
         if not into:
             continue        # the container is not iterable by reference: nothing to decide
         if len(nexts) != 1 or into[0]["key"] not in F.insts or nexts[0]["key"] not in F.insts:
@@ -2769,7 +2769,7 @@ def container_iter_lemmas(F, rep, rule="L-base-iter", conts=("slice", "string"),
             guarded(rep, rule, key, "iter", f)
         # an iterator that overrides nth / size_hint: scripted interleavings (a steps, one skip of n, two more steps) on long inputs — skips
         # inside a storage word, across one, by a whole word and more, and past the end
-        meths = {r["method"]: r["key"] for r in roots if r.get("trait") == "Iterator" and r.get("of") == cty and r["key"] in F.insts}
+        meths = {r["method"]: r["key"] for r in roots if r.get("trait") == "Iterator" and r.get("of") == cty and r["key"] in F.insts and not r.get("via")}
         if "nth" in meths or "size_hint" in meths:
             long_cases = [(70, 0, 70, False)] if cname == "string" else [(70, 1, 66, False), (70, 1, 66, True), (70, 32, 38, False)]
             for nb, st, ln, rc in long_cases:
@@ -2971,7 +2971,7 @@ def node_kmer_iter_e2e(F, rep, rule="L-node-iter", quick=True):
             rep.inconclusive(rule, "%s/K" % kty, "cannot evaluate K: %s" % e)
             continue
         K = kt.K
-        meths = {r["method"]: r["key"] for r in roots if r.get("trait") == "Iterator" and r.get("of") == selfty}
+        meths = {r["method"]: r["key"] for r in roots if r.get("trait") == "Iterator" and r.get("of") == selfty and not r.get("via")}
         if "next" not in meths or h["key"] not in F.insts or any(k_ not in F.insts for k_ in meths.values()):
             rep.inconclusive(rule, "%s/iterator" % kty, "the iterator returned by NodeKmer::into_iter has no `next` instance in the driver's facts")
             continue
